@@ -1022,3 +1022,92 @@ def replace_nodes(n, by_id):
     if id(n) in by_id:
         return by_id[id(n)]
     return {k: replace_nodes(v, by_id) for k, v in n.items()}
+
+
+def specialise_value(n, lid, val):
+    """n as it runs when the local `lid` holds the string / integer `val`: comparisons of the local with literals are
+    decided, a match on it is replaced by the arm taken, conditions that became constant select their branch, and what
+    follows a statement that always leaves is dropped.  Everything that does not depend on the local stays as it is."""
+    def is_it(e):
+        e = strip(e)
+        return is_local(e) and local_id(e) == lid
+
+    def lit_of(e):
+        e = strip(e)
+        return (True, e.get("v")) if e.get("k") == "lit" and e.get("lk") in ("str", "int", "char") else (False, None)
+
+    def blit(b, like):
+        return {"k": "lit", "lk": "bool", "v": bool(b), "ty": "bool", "line": like.get("line")}
+
+    def isb(x):
+        x = strip(x) if isinstance(x, dict) else x
+        return isinstance(x, dict) and x.get("k") == "lit" and x.get("lk") == "bool"
+
+    def pat_ok(p):
+        k = p.get("k")
+        if k in ("wild",) or (k == "bind" and "sub" not in p):
+            return True
+        if k == "or":
+            rs = [pat_ok(q) for q in p["pats"]]
+            return None if any(r is None for r in rs) else any(rs)
+        if k == "plit":
+            ok, v = lit_of(p["lit"])
+            return (v == val) if ok else None
+        if k in ("ref", "deref"):
+            return pat_ok(p["pat"])
+        return None
+
+    def go(x):
+        if isinstance(x, list):
+            return [go(y) for y in x]
+        if not isinstance(x, dict):
+            return x
+        k = x.get("k")
+        if k == "bin" and x.get("op") in ("==", "!="):
+            for a, b in ((x["l"], x["r"]), (x["r"], x["l"])):
+                ok, v = lit_of(b)
+                if ok and is_it(a):
+                    return blit((v == val) == (x["op"] == "=="), x)
+        if k == "match" and not is_try(x) and is_it(x["scrut"]):
+            for a in x["arms"]:
+                r = pat_ok(a["pat"])
+                if r is None or a.get("guard") is not None:
+                    break
+                if r:
+                    return go(a["body"])
+        if k == "un" and x.get("op") == "!":
+            e = go(x["e"])
+            if isb(e):
+                return blit(not strip(e)["v"], x)
+            return dict(x, e=e)
+        if k == "bin" and x.get("op") in ("&&", "||"):
+            l, r = go(x["l"]), go(x["r"])
+            if isb(l):
+                lv = strip(l)["v"]
+                if x["op"] == "&&":
+                    return r if lv else blit(False, x)
+                return blit(True, x) if lv else r
+            if isb(r) and ((x["op"] == "&&" and strip(r)["v"]) or (x["op"] == "||" and not strip(r)["v"])):
+                return l
+            return dict(x, l=l, r=r)
+        if k == "if":
+            c = go(x["c"])
+            if isb(c):
+                if strip(c)["v"]:
+                    return go(x["t"])
+                return go(x["e"]) if x.get("e") is not None else {"k": "block", "stmts": [], "expr": None, "line": x.get("line")}
+            out = dict(x, c=c, t=go(x["t"]))
+            if x.get("e") is not None:
+                out["e"] = go(x["e"])
+            return out
+        if k == "block":
+            st = []
+            for s_ in x.get("stmts", []):
+                s2 = go(s_)
+                st.append(s2)
+                e_ = s2.get("e") if s2.get("k") in ("semi", "expr") else None
+                if e_ is not None and diverges(e_):
+                    return dict(x, stmts=st, expr=None)
+            return dict(x, stmts=st, expr=go(x.get("expr")) if x.get("expr") is not None else None)
+        return {kk: (go(v) if isinstance(v, (dict, list)) else v) for kk, v in x.items()}
+    return go(n)
